@@ -20,15 +20,22 @@ LbNames == <<"Instance.lower_bound_bins", "BinCount.lower_bound", "InstanceSpace
 RNames == <<"PackingResult.bins.lowerBound", "PackingResult.bins.lowerBound.geometric",
             "PackingResult.bins.lowerBound.damv">>
 RLbs(c) == IF "rlbs" \in DOMAIN c THEN c.rlbs ELSE <<>>
+\* ... and the same three bounds as they stand in the record derived for the first witness packing
+\* (from_packing_and_end_result), which may come from something remembered between calls
+PNames == <<"PackingResult(record).bins.lowerBound", "PackingResult(record).bins.lowerBound.geometric",
+            "PackingResult(record).bins.lowerBound.damv">>
+PLbs(c) == IF "plbs" \in DOMAIN c THEN c.plbs ELSE <<>>
 
 RECURSIVE WitClause(_, _, _, _)
 WitClause(inst, c, ws, i) ==
   IF i > Len(ws) THEN "ok"
   ELSE IF ~Feasible(inst, ws[i].rows, ws[i].nb) THEN "driver-infeasible-witness"
   ELSE LET bad == {k \in 1..Len(c.lbs) : c.lbs[k] > ws[i].nb}
-           rbad == {k \in 1..Len(RLbs(c)) : RLbs(c)[k] > ws[i].nb} IN
+           rbad == {k \in 1..Len(RLbs(c)) : RLbs(c)[k] > ws[i].nb}
+           pbad == {k \in 1..Len(PLbs(c)) : PLbs(c)[k] > ws[i].nb} IN
        IF bad # {} THEN "bound-exceeds-feasible-packing:" \o LbNames[SetMin(bad)]
        ELSE IF rbad # {} THEN "bound-exceeds-feasible-packing:" \o RNames[SetMin(rbad)]
+       ELSE IF pbad # {} THEN "bound-exceeds-feasible-packing:" \o PNames[SetMin(pbad)]
        ELSE WitClause(inst, c, ws, i + 1)
 
 Verdict(c) ==
@@ -38,8 +45,10 @@ Verdict(c) ==
            \* min_bins is min(lb, n_items): never below the area bound either, since geo <= n_items
            low == {k \in 1..Len(c.lbs) : c.lbs[k] < geo}
            rlow == {k \in (1..Len(RLbs(c))) \cap {1, 2} : RLbs(c)[k] < geo}
+           plow == {k \in (1..Len(PLbs(c))) \cap {1, 2} : PLbs(c)[k] < geo}
        IN IF low # {} THEN "bound-below-area-bound:" \o LbNames[SetMin(low)]
           ELSE IF rlow # {} THEN "bound-below-area-bound:" \o RNames[SetMin(rlow)]
+          ELSE IF plow # {} THEN "bound-below-area-bound:" \o PNames[SetMin(plow)]
           ELSE WitClause(inst, c, c.wit, 1)
 
 Init == tid = 0
